@@ -187,56 +187,6 @@ Definition fee_oracle (sc : scn) (ref_const : N) (utxos : list (N * value)) : @o
        end).
 
 (* ------------------------------------------------------------------------------------------- *)
-(* add_inputs_from_and_change returning also the state and oracle state its successful add_change started from *)
-
-Section Snap.
-  Variable orc : @oracle ostate.
-  Notation "'letM' x ':=' m 'in' k" := (bindM m (fun x => k))
-    (at level 200, x name, m at level 100, k at level 200, right associativity).
-  Notation "'doM' m 'in' k" := (bindM m (fun _ => k))
-    (at level 200, m at level 100, k at level 200, right associativity).
-
-  Definition snapshot : @M ostate (state * ostate) := fun s o => mkOut (Ok (s, o)) s o.
-
-  Fixpoint retry_loop_snap (fuel : nat) (addr extra : N) (l : list (N * value)) : @M ostate (option (bool * (state * ostate))) :=
-    match l with
-    | [] => ret None
-    | x :: r =>
-        doM add_inputs [x] in
-        letM sn := snapshot in
-        letM res := catch (add_change orc fuel addr extra) in
-        match res with
-        | Some v => ret (Some (v, sn))
-        | None => retry_loop_snap fuel addr extra r
-        end
-    end.
-
-  Definition select_change_snap (fuel : nat) (utxos : list (N * value)) (addr extra : N) : @M ostate (bool * (state * ostate)) :=
-    letM s0 := get in
-    letM sel := askSel orc s0 utxos in
-    doM add_inputs (fst sel) in
-    if negb (snd sel) then lift Err
-    else
-      letM s1 := get in
-      match s_fee s1 with
-      | Some _ => lift Err
-      | None =>
-          letM sn := snapshot in
-          letM res := catch (add_change orc fuel addr extra) in
-          match res with
-          | Some v => ret (v, sn)
-          | None =>
-              letM s2 := get in
-              letM r := retry_loop_snap fuel addr extra (sort_unused (s_inputs s2) utxos) in
-              match r with
-              | Some v => ret v
-              | None => lift Err
-              end
-          end
-      end.
-End Snap.
-
-(* ------------------------------------------------------------------------------------------- *)
 (* operations *)
 
 Inductive op6 : Type :=
@@ -247,7 +197,8 @@ Inductive op6 : Type :=
 Record rstate : Type := mkR {
   r_st : state;
   r_ref : N;                           (* bytes of scripts on the explicit reference inputs *)
-  r_bal : option (bool * bool);        (* slack_ok, binding of the last successful change computation; None once edited *)
+  r_bal : option (bool * bool);        (* Some: a change computation succeeded and nothing was edited since (the pair, once the
+                                          slack / binding figures of the old code's known classes, is now constantly (true, false)) *)
   r_coll : bool;                       (* a collateral input was added *)
   r_sdh : bool                         (* the script data hash is set (the harness sets it before the first change computation
                                           when a Plutus input is present) *)
@@ -284,24 +235,14 @@ Definition run_op6 (sc : scn) (utxos : list (N * value)) (x : op6) (tape : list 
        mkR s (if tag =? 1 then r_ref r + n else r_ref r) None (r_coll r || (tag =? 2)) (r_sdh r), 0)
   | Base (OpChange addr extra) =>
       let res := add_change orc fuel_default addr extra s o in
-      let e := env_of sc (r_ref r) (k_const o) in
-      let bal := match out_res res with
-                 | Ok _ => Some (slack_ok e orc fuel_default addr extra s o, binding e s)
-                 | _ => r_bal r
-                 end in
+      (* since the repair (check_fee_after_change) no insufficient fee is excused: slack = true, binding = false *)
+      let bal := match out_res res with Ok _ => Some (true, false) | _ => r_bal r end in
       let f := finish6 res RBool in
       (fst f, mkR (snd f) (r_ref r) bal (r_coll r) sdh, o_checked (out_orc res))
   | Base (OpSelectChange avail addr extra) =>
       let us := resolve utxos avail in
       let res := add_inputs_from_and_change orc fuel_default us addr extra s o in
-      let snap := select_change_snap orc fuel_default us addr extra s o in
-      let bal := match out_res res, out_res snap with
-                 | Ok _, Ok (_, (st, ot)) =>
-                     let e := env_of sc (r_ref r) (k_const (out_orc res)) in
-                     Some (slack_ok e orc fuel_default addr extra st ot, binding e st)
-                 | Ok _, _ => Some (true, false)
-                 | _, _ => r_bal r
-                 end in
+      let bal := match out_res res with Ok _ => Some (true, false) | _ => r_bal r end in
       let f := finish6 res RBool in
       (fst f, mkR (snd f) (r_ref r) bal (r_coll r) sdh, o_checked (out_orc res))
   | Base OpBuild =>
